@@ -636,7 +636,11 @@ def compare(ctx, exe, hs, label, stats=None, expect_in_scope=True):
                                   else f'the sleep ends {d - mx} us after the returned time'
                                        + (' (nothing is pending: the returned time is T1 + FIBRE_UNBOUNDED_SLEEP)' if (int(a[k].split('wake=')[1].split()[0]) - int(hh[k].split()[1])) % W32 == W31 - 1
                                           else ' = the earliest pending due time: that timeout is delayed by as much')))
-                ctx.violation(r, key=why)
+                # stable key: which rule was broken + how the slept interval relates to the pass (distinguishes D13's 50 ms poll
+                # from an interval computed against the pre-pass clock reading, etc.)
+                vt1 = (int(a[k].split('wake=')[1].split()[0]) - int(hh[k].split()[1])) % W32
+                how = 'poll-50ms' if d == 50000 else 'interval-from-T1' if d == min(vt1, 50000) else 'other'
+                ctx.violation(r, key=why + ':' + how)
             else:
                 ctx.violation(r, key=key_of(hh))
             return agreed
@@ -830,6 +834,12 @@ def run_sched(ctx, meta, modules, required, flavor, allow_extra_axioms=None):
     corpus = load_corpus('C01') + (load_corpus(flavor) if flavor != 'C01' else [])
     if corpus:
         agreed += compare(ctx, exe, corpus, 'corpus', stats)
+    if flavor == 'C03' and not ctx.violations:      # systematic and seed-independent, so it runs before the random histories (stable witnesses)
+        bases = [1000, W32 - 25000, W31 - 500, 5 * W32 + 12345] + ([W32 - 1, W31 - 50000, 3 * W32 + W31 - 1] if ctx.tier == 'thorough' else [])
+        grid = mainloop_grid(bases)
+        agreed += compare(ctx, exe, grid, 'main-loop grid', stats)
+        ctx.cov['mainloop_grid'] = f'{len(grid)} one-iteration histories: T2-T1 in {GAPS} x V-T2 around {EDGES} x 5 states at return, time bases {[hex(b) for b in bases]}'
+        ctx.cov['evaluations'] += len(grid)
     nh = 1200 if ctx.tier == 'quick' else 20000
     hs, shapes = [], {}
     for _ in range(nh):
@@ -842,12 +852,6 @@ def run_sched(ctx, meta, modules, required, flavor, allow_extra_axioms=None):
             agreed += compare(ctx, exe, hs[i:i + 2000], 'generated histories', stats)
             if ctx.violations or ctx.broken:
                 break
-    if flavor == 'C03' and not ctx.violations:
-        bases = [1000, W32 - 25000, W31 - 500, 5 * W32 + 12345] + ([W32 - 1, W31 - 50000, 3 * W32 + W31 - 1] if ctx.tier == 'thorough' else [])
-        grid = mainloop_grid(bases)
-        agreed += compare(ctx, exe, grid, 'main-loop grid', stats)
-        ctx.cov['mainloop_grid'] = f'{len(grid)} one-iteration histories: T2-T1 in {GAPS} x V-T2 around {EDGES} x 5 states at return, time bases {[hex(b) for b in bases]}'
-        ctx.cov['evaluations'] += len(grid)
     oos = [gen_out_of_scope(rng, flavor) for _ in range(30 if ctx.tier == 'quick' else 300)]
     if not ctx.violations:
         compare(ctx, exe, oos, 'out-of-scope stream', stats, expect_in_scope=False)
